@@ -84,6 +84,11 @@ def children(obj):
     return [f["_inner"]]
 
 
+def is_slist(v):
+    from . import gmode
+    return isinstance(v, gmode.SList)
+
+
 def is_known(obj):
     return obj.cls is not None and obj.kind != "foreign"
 
@@ -93,6 +98,10 @@ def vars_of(I, obj):
     if obj.cls is None:
         return obj.ghost["vars"]
     c = obj.cls.name
+    if c in ("Add", "Multiply") and is_slist(obj.fields.get("_inners")):
+        from . import gmode
+        sl = obj.fields["_inners"]
+        return gmode.bigunion(I, sl.length, lambda t: vars_of(I, sl.elem(t)), f"Vars({obj.name})")
     if c == "Constant":
         return sym.empty_set()
     if c == "Variable":
@@ -135,6 +144,10 @@ def den(I, obj, pt):
 
 def _child_den(I, obj, pt):
     pn = point_name(I, pt)
+    if "indexed" in obj.ghost:
+        fam, idx = obj.ghost["indexed"]
+        Df, Vf, dVf = fam.den_funcs(pn)
+        return Den(Df(idx), Vf(idx), lambda k: dVf(idx, k))
     D = z3.Bool(f"D[{obj.name}|{pn}]")
     V = z3.Real(f"V[{obj.name}|{pn}]")
     dvf = z3.Function(f"dV[{obj.name}|{pn}]", sym.Name, sym.R)
@@ -163,6 +176,8 @@ def _table_den(I, obj, pt):
     if c == "Variable":
         n = I.bi.key_term(f["name"])
         return Den(z3.BoolVal(True), point_val(I, pt, n), lambda k: z3.If(k == n, RV(1), RV(0)))
+    if c in ("Add", "Multiply") and is_slist(f.get("_inners")):
+        return _gmode_den(I, obj, pt)
     ds = [den(I, ch, pt) for ch in children(obj)]
     if c == "Add":
         V = RV(0)
@@ -230,6 +245,24 @@ def _table_den(I, obj, pt):
         (a,) = ds
         return Den(a.D, sym.cos(a.V), lambda k: -sym.sin(a.V) * a.dV(k))
     raise KeyError(c)
+
+
+def _gmode_den(I, obj, pt):
+    """Add / Multiply of symbolic arity: big operators over the children family."""
+    from . import gmode
+    sl = obj.fields["_inners"]
+    k = sl.length
+    dk = lambda t: den(I, sl.elem(t), pt)
+    D = gmode.forall_const(I, k, lambda t: dk(t).D, f"D({obj.name})")
+    if obj.cls.name == "Add":
+        V = gmode.bigsum(I, lambda t: dk(t).V, k)
+        return Den(D, V, lambda name: gmode.bigsum(I, lambda t: dk(t).dV(name), k))
+    V = gmode.bigprod(I, lambda t: dk(t).V, k)
+
+    def dv(name):
+        # sum_i dV_i * prod_{j != i} V_j : the product over the list with its i-th entry removed
+        return gmode.bigsum(I, lambda t: dk(t).dV(name) * gmode.bigprod_without(I, lambda u: dk(u).V, t, k), k)
+    return Den(D, V, dv)
 
 
 def _sum(ts):
